@@ -1,8 +1,11 @@
 (* Properties_C11.v — C11: a queue is never reported empty while an event is pending or in
-   dispatch.  This file holds the single-threaded half (the observer is a listener) and the
-   facts about emptyQueue()'s generated body that the thread-level argument uses. *)
+   dispatch.  The single-threaded half (the observer is a listener), the facts about emptyQueue()'s
+   generated body, and the cross-thread clause for every set of thread programs and every schedule
+   (QConcInv.v / QConcEmpty.v, at the granularity of visible actions).
+   Not mechanised: the waitFor-times-out half of the statement, the reduction from instruction-level
+   interleavings to visible-action interleavings, the C++ memory model. *)
 From Coq Require Import List Arith NArith ZArith Bool.
-From EV Require Import QModel QBalance QConc QConcInv.
+From EV Require Import QModel QBalance QConc QConcInv QConcEmpty.
 From EV.gen Require GenQ.
 Import ListNotations.
 
@@ -40,10 +43,7 @@ Print Assumptions C11_reads_list_then_counter.
 (* under threads, for EVERY set of thread programs and EVERY schedule (QConcInv.v): the "in
    dispatch" counter is exactly the number of processing calls that are between their increment
    and their decrement (pd = outstanding decrements of a thread's remaining code), and it is
-   back at 0 whenever no call is in progress.  NOT mechanised: the step from this to "emptyQueue
-   never answers true while an event whose enqueue completed earlier is still in dispatch" for
-   concurrent observers (that a processing call holds events only between its increment and its
-   decrement, and the two-read history argument) — replayed on schedules instead *)
+   back at 0 whenever no call is in progress *)
 Theorem C11_threads_counter_counts_processing_calls_in_flight :
   forall progs schedule fuel,
     sum_pd (ths (reached progs schedule fuel)) = Some (cec (shs (reached progs schedule fuel))).
@@ -56,6 +56,36 @@ Theorem C11_threads_counter_restored_at_rest :
     cec (shs (reached progs schedule fuel)) = 0%Z.
 Proof. exact empty_counter_restored_at_rest. Qed.
 Print Assumptions C11_threads_counter_restored_at_rest.
+
+(* THE CROSS-THREAD CLAUSE (QConcEmpty.v).  For every set of thread programs and every schedule in which
+   no processIf / processUntil has put events back (g_putbacks = 0 — the property's quantifier: observers
+   against enqueue, process, processOne, takeEvent, clearEvents): whenever an observer's emptyQueue() has
+   found the list empty (lseen) and the in-dispatch counter is 0 — the configuration in which its second
+   read returns 0 and the call answers true — every event that had been put into the queue when the call
+   began (lsnap) has been dispatched, taken or cleared, or is in the hands of a takeEvent / clearEvents
+   call that has removed it from the queue.  (`consumed` = dispatched ++ taken ++ cleared; an event is
+   entered there when its dispatch by process / processOne has returned.) *)
+Theorem C11_threads_emptyqueue_true_means_consumed :
+  forall progs schedule fuel,
+    let cfg := reached progs schedule fuel in
+    g_putbacks (shs cfg) = 0 ->
+    forall o, In o (ths cfg) -> lseen (lo o) = true -> cec (shs cfg) = 0%Z ->
+    forall e, In e (lsnap (lo o)) ->
+      In e (consumed (shs cfg)) \/
+      exists t, In t (ths cfg) /\ ltaking (lo t) = true /\ In e (ltemp (lo t)).
+Proof. exact emptyqueue_true_means_consumed. Qed.
+Print Assumptions C11_threads_emptyqueue_true_means_consumed.
+
+(* non-vacuity: producer, consumer, observer; the observer's call starts after the event was settled,
+   sees the list empty and the counter 0, and the event is among the consumed *)
+Example C11_threads_example :
+  let cfg := reached [[AEnqueue 0 11%Z]; [AProcess]; [AEmptyQ]] [] 400 in
+  g_putbacks (shs cfg) = 0 /\ cec (shs cfg) = 0%Z /\
+  match nth_error (ths cfg) 2 with
+  | Some o => lseen (lo o) = true /\ length (lsnap (lo o)) = 1 /\ lsnap (lo o) = consumed (shs cfg)
+  | None => False
+  end.
+Proof. vm_compute. repeat split; reflexivity. Qed.
 
 Example C11_in_listener_example :
   exists st, q_run true false (fun _ _ => false) (fun c n => [QEmpty]) (fun _ _ => ([], true)) 5 q_init
